@@ -259,6 +259,7 @@ class FakeClient:
         self.attempts = 0
         self.next_ok = True
         self.transport_name = 'fake'
+        self.unhandled = []         # events triggered for which the object under test registered no handler
 
     def event(self, *args, **kwargs):
         if len(args) == 1 and len(kwargs) == 0 and callable(args[0]):
@@ -282,8 +283,12 @@ class FakeClient:
         self.connect_args = (url, kwargs)
 
     def trigger(self, event, namespace, *args):
-        """what Client._trigger_event does with an explicit handler"""
-        h = self.handlers[(event, namespace)]
+        """what Client._trigger_event does with an explicit handler; an event for which the object under test
+        registered nothing (through on() / event()) has nothing to call, as in the real client"""
+        h = self.handlers.get((event, namespace))
+        if h is None:
+            self.unhandled.append(event)
+            return None
         try:
             return h(*args)
         except TypeError:
@@ -387,7 +392,8 @@ class WorldBase:
         o = {'op': self.cur_op, 'kind': kind, 'value': value, 'completed': self.completed,
              'invoked': self.invoked, 'returned': self.returned, 'ended': self.ended,
              'waiting_on': self.timeout_on, 'avail_start': self.start_avail, 'flag_start': self.start_flag,
-             'ended_rd': self.ended_rd}
+             'ended_rd': self.ended_rd,
+             'after_reconnect': 'disconnect' in self.conn_started and self.conn_started[-1] == 'connect'}
         self.outcomes.append(o)
         self._judge(o)
         if kind == 'ret' and self.cur_op in RECV_OPS:
@@ -454,8 +460,26 @@ class WorldBase:
             else:
                 self.oracle.append((None, 'emit/call ended with %s %r' % (kind, v)))
 
+    def conn_up(self):
+        """the last connection event the client delivered (handler returned, or nothing registered for it) is
+        `connect`: the namespace is connected"""
+        return bool(self.conn_started) and self.conn_started[-1] == 'connect' and not self.conn_mid()
+
     def judge_blocked(self):
-        """called after every token: a parked receive() with an available event must be runnable"""
+        """called after every token: a parked receive() with an available event must be runnable; an application
+        call waits out a reconnection in progress, not longer: once the connection is up again no call may be
+        parked waiting for the connection (emit/call wait for nothing else)"""
+        if self.consumer_status() == 'blocked' and self.cur_op is not None and self.conn_up():
+            w = self.waiting_on()
+            if self.cur_op not in RECV_OPS or w == 'cev':
+                what = ('receive(timeout=%r)' % RECV_TIMEOUT[self.cur_op] if self.cur_op in RECV_OPS else
+                        'emit()' if self.cur_op == 'Se' else 'call()')
+                t = ('%s is parked on %s and cannot run although the connection is up (connection events delivered '
+                     'by the client so far: %r; %d arrived event(s) unreturned): a call waits out a reconnection in '
+                     'progress, it must go on once the connection is established again'
+                     % (what, w, self.conn_started, self.completed - self.returned))
+                if (None, t) not in self.oracle:
+                    self.oracle.append((None, t))
         if self.consumer_status() == 'blocked' and self.cur_op in RECV_OPS and \
                 self.completed > self.returned:
             w = self.waiting_on()
@@ -597,12 +621,18 @@ class ThreadWorld(WorldBase):
         if tok == 'P':
             if self.producer.status == 'idle':
                 s.step(self.producer)
-            s.step(self.producer)
+                if self.producer.status != 'idle':      # (idle again: no handler registered, nothing was called)
+                    s.step(self.producer)
+            else:
+                s.step(self.producer)
         elif tok in KNAME:
             if self.handler.status == 'idle':
                 self.next_conn = KNAME[tok]
                 s.step(self.handler)
-            s.step(self.handler)
+                if self.handler.status != 'idle':       # (idle again: no handler registered, nothing was called)
+                    s.step(self.handler)
+            else:
+                s.step(self.handler)
         elif tok in ('C', 'Cf'):
             if self.consumer.status != 'idle':
                 self.client.next_ok = (tok == 'C')
